@@ -26,7 +26,10 @@ fn main() {
     if args.len() < 2 {
         usage();
     }
-    subject::install_panic_hook();
+    // FQV_LOUD: keep the default panic printer (debugging aid: a panic of the harness itself is otherwise silent)
+    if std::env::var("FQV_LOUD").is_err() {
+        subject::install_panic_hook();
+    }
     let verif_dir = std::env::var("VERIF_DIR").unwrap_or_else(|_| "/verif".to_string());
     match args[1].as_str() {
         "selfcheck" => match selfcheck::run(true) {
